@@ -35,9 +35,14 @@ if a.skip_confirm and os.path.exists(os.path.join(out, "meta.json")):
     meta = old
 patch = os.path.join(seed, "patch.diff") if os.path.exists(os.path.join(seed, "patch.diff")) else os.path.join(out, "patch.diff")
 # keep only source changes
+# hook lines added to /repo after a change was stored can sit inside the context of its patch: fall back to patch(1) with fuzz
+APPLY = "git -C /repo apply %s"
 r = sh("git -C /repo apply --check %s" % patch)
 if r.returncode != 0:
-    print("patch does not apply to /repo:", r.stdout); sys.exit(2)
+    r = sh("patch -p1 -F3 --dry-run --no-backup-if-mismatch -r - -d /repo < %s" % patch)
+    if r.returncode != 0:
+        print("patch does not apply to /repo:", r.stdout); sys.exit(2)
+    APPLY = "patch -p1 -F3 --no-backup-if-mismatch -r - -d /repo < %s"
 if not a.skip_confirm:
     r = sh("cd %s && cmake --build _build -j8 >/dev/null 2>&1; ctest --test-dir _build -j8 --timeout 900 2>&1 | grep 'tests passed'" % wt, timeout=1800)
     meta["tests_with_change"] = r.stdout.strip()
@@ -56,7 +61,7 @@ for f in ("patch.diff", "demo.c", "build_and_run.sh", "notes.md"):
     if os.path.exists(os.path.join(seed, f)):
         shutil.copy(os.path.join(seed, f), out)
 # run the checks against the change
-sh("git -C /repo apply %s" % patch)
+sh(APPLY % patch)
 try:
     for p in props:
         t0 = time.time()
